@@ -162,11 +162,17 @@ fn c17_ws_server_paths(case: &Case) {
         let limits = WebSocketLimits::default().with_assumed_peer_frame_limit(limit);
         let listener = WebSocketServer::listen("127.0.0.1:0").await.unwrap();
         let addr = listener.local_addr().unwrap();
-        let server = WebSocketServer::new(router).with_limits(limits).with_peer_registry(reg.clone()).on_error(move |e: &ConnectionError| {
+        let on_err = move |e: &ConnectionError| {
             if let ConnectionError::OutboundTooLarge { method, size, limit } = e {
                 tl.lock().unwrap().push((method.clone(), *size, *limit));
             }
-        });
+        };
+        // the limits may be configured at any point of the builder chain
+        let server = match simkernel::choose(3) {
+            0 => WebSocketServer::new(router).with_limits(limits).with_peer_registry(reg.clone()).on_error(on_err),
+            1 => WebSocketServer::new(router).with_peer_registry(reg.clone()).with_outbound_capacity(64).with_limits(limits).on_error(on_err),
+            _ => WebSocketServer::new(router).on_error(on_err).with_offreader_limit(4).with_peer_registry(reg.clone()).with_limits(limits),
+        };
         let srv = tokio::spawn(async move {
             let _ = server.serve_listener(listener, "/repe").await;
         });
@@ -590,6 +596,7 @@ fn c17_ws_client(case: &Case) {
         }
         let fin = client.call_with_formats_and_timeout("/c/fin", 1, Some(b"x"), 0, Duration::from_secs(5)).await;
         case.check(fin.is_ok(), "connection-lost", || format!("follow-up call failed: {fin:?}"));
+        case.check(client.verif_pending_len() == 0, "pending-residue", || format!("{} pending entries left after refused / completed sends", client.verif_pending_len()));
         case.nontrivial();
         drop(client);
         let _ = tokio::time::timeout(Duration::from_secs(2), server).await;
